@@ -156,6 +156,27 @@ func TestVerifReplayIntents(t *testing.T) {
 	for _, fn := range nfns {
 		fmt.Printf("REPLAY-CASES fn=%s n=%d\n", fn, m)
 	}
+	// the key leaves of the list entries on the path of an update are part of its expansion, whatever the value is
+	{
+		fnE := "(*utils.Converter).ExpandUpdate"
+		for vn, v := range map[string]*sdcpb.TypedValue{
+			"empty (presence container)": {Value: &sdcpb.TypedValue_EmptyVal{}},
+			"json object":                {Value: &sdcpb.TypedValue_JsonVal{JsonVal: []byte(`{"admin-state":"enable","autonomous-system":65000,"router-id":"1.1.1.1"}`)}},
+		} {
+			m++
+			p := ifp(&sdcpb.PathElem{Name: "network-instance", Key: map[string]string{"name": "default"}}, &sdcpb.PathElem{Name: "protocol"}, &sdcpb.PathElem{Name: "bgp"})
+			upds, err := conv.ExpandUpdate(ctx, &sdcpb.Update{Path: p, Value: v}, true)
+			hasKey := false
+			for _, u := range upds {
+				if utils.ToXPath(u.GetPath(), false) == "network-instance[name=default]/name" {
+					hasKey = true
+				}
+			}
+			if err != nil || !hasKey {
+				fmt.Printf("REPLAY-FAIL fn=%s clause=key_leaves_are_part_of_the_expansion input=update path=network-instance[name=default]/protocol/bgp, value=%s why=expanded to %d updates without network-instance[name=default]/name (err %v): the entry is stored without its key and deleted again by the next transaction\n", fnE, vn, len(upds), err)
+			}
+		}
+	}
 	try("nil update in the list", &sdcpb.TransactionIntent{Intent: "i", Priority: 5, Update: []*sdcpb.Update{nil}})
 	try("no updates, delete flag", &sdcpb.TransactionIntent{Intent: "i", Priority: 5, Delete: true})
 	for _, fn := range fns {
